@@ -38,10 +38,10 @@ CONSTANTS
   NewestWins = %(newest)s
   EmitCases = %(emit)s
 INVARIANTS TypeOK RevidExact TitleIsNewest TitleSound TitleComplete RedirectResolves SkipLaw EmitOpen
-PROPERTIES ActionOrder %(live)s
+PROPERTIES ActionOrder ReadsArePure %(live)s
 CHECK_DEADLOCK FALSE
 """
-ACTIONS = ["Redirect", "WritePage", "WriteExpanded", "StoreImage", "Close", "Zip", "OpenDir", "OpenZip"]
+ACTIONS = ["Redirect", "WritePage", "WriteExpanded", "StoreImage", "Close", "Zip", "OpenDir", "OpenZip", "Read"]
 
 
 def cfg(nt, nr, maxw, minw, red, nimg, maximg, newest=True, emit=True, live=False):
